@@ -1,7 +1,7 @@
 (* C18 -- Actions are well-formed value objects
    Property theorems only: each proof is one application of a lemma proved in Proofs/, followed by Print Assumptions. *)
 From Coq Require Import ZArith List Bool.
-From CS Require Repr.
+From CS Require Repr RevConv RevBridge4 RevolveRun.
 From CS Require Import Actions NAdvance Multistage Exec Sched RunFacts Projections BasicInv MultistageRun AllocTotal TLBridge MixBridge.
 Import ListNotations.
 Open Scope Z_scope.
@@ -47,6 +47,16 @@ Proof.
   exists o0, m, ls. auto using mon_ok_no_err.
 Qed.
 Print Assumptions C18_twolevel.
+
+(* RevolveCheckpointSchedule, class Revolve (memory only): every N, every number of RAM units, every cost vector (the disk
+   arguments are ignored by this class); budgets RAM = snapshots_in_ram, DISK = 0 *)
+Theorem C18_revolve : forall (N ram disk uf ub wd rd : Z) (k : nat), 1 <= N -> 0 <= ram -> (2 <= N -> 1 <= ram) ->
+  exists o0 m ls, run_case (PRev RevConv.KRevolve N ram disk uf ub wd rd) (RevBridge4.rev_xparams N ram) (repeat Next k) = Ok (o0, m, ls) /\ no_err err_C18 m /\ no_raise ls.
+Proof.
+  intros N ram disk uf ub wd rd k H1 H2 H3. destruct (RevolveRun.revolve_run N ram disk uf ub wd rd k H1 H2 H3) as (o0 & m & ls & E & Hm & Hl).
+  exists o0, m, ls. auto using mon_ok_no_err.
+Qed.
+Print Assumptions C18_revolve.
 
 (* MixedCheckpointSchedule: every N, every unit count, both storages, both planner paths (memoised / tabulated) *)
 Theorem C18_mixed : forall (N s : Z) (sg : storage) (tab : bool) (k : nat),
